@@ -756,11 +756,41 @@ pub fn exec_par(f: &[&str]) -> String {
     r.unwrap_or_else(|_| "PANIC!0!~".to_owned())
 }
 
+/// `seqx <mode a|t> <pre> <ops> [<pre|post>]`: C04's `seq` op language (second appender `n`, foreign
+/// `O_APPEND` writer `x…`, external truncation `T`, restarts, failing / panicking encoders) on REAL
+/// `RollingFileAppender`s whose policy never rotates: the real `CompoundPolicy` with a trigger that
+/// always answers `false` (the scripted trigger with an empty script, consulted before or after the
+/// write) and the real `DeleteRoller`. While nothing rotates the appender must be the file appender:
+/// the observation is C04's (the file as another thread reads it after every op).
+pub fn exec_seqx(f: &[&str]) -> String {
+    let (mode, pre, ops, pre_process) = match f {
+        [mode, pre, ops] => (mode, pre, ops, false),
+        [mode, pre, ops, "post"] => (mode, pre, ops, false),
+        [mode, pre, ops, "pre"] => (mode, pre, ops, true),
+        _ => return "bad-case".to_owned(),
+    };
+    if *mode != "a" && *mode != "t" {
+        return "bad-case".to_owned();
+    }
+    crate::c04::exec_seq_with(mode, pre, ops, "c05x", &move |path, append| {
+        let trigger = ScriptedTrigger { pre: pre_process, script: Arc::new(Mutex::new(VecDeque::new())) };
+        let policy = CompoundPolicy::new(Box::new(trigger), Box::new(DeleteRoller::new()));
+        Box::new(
+            RollingFileAppender::builder()
+                .append(append)
+                .encoder(Box::new(ScriptEncoder::new()))
+                .build(path, Box::new(policy))
+                .unwrap(),
+        )
+    })
+}
+
 pub fn exec(fields: &[&str]) -> String {
     match fields.first() {
         Some(&"seq") => exec_seq(&fields[1..]),
         Some(&"conc") => exec_conc(&fields[1..]),
         Some(&"par") => exec_par(&fields[1..]),
+        Some(&"seqx") => exec_seqx(&fields[1..]),
         _ => "bad-case".to_owned(),
     }
 }
@@ -1083,6 +1113,24 @@ pub fn gen(rng: &mut Rng, n: usize, thorough: bool, emit: &mut dyn FnMut(String)
     }
     for _ in 0..(if thorough { n / 10 } else { n / 6 }).max(10) {
         emit(gen_par_case(rng, thorough));
+    }
+    // the rolling appender's FIRST OPEN (`get_writer`): C04's multi-handle histories on real rolling
+    // appenders that never rotate; first the deterministic block (truncate mode on a shared path)
+    for pre in ["-", "6f6c640a"] {
+        for when in ["post", "pre"] {
+            emit(format!("seqx\tt\t{}\tb1:3,x9001:13,b2:3\t{}", pre, when));
+            emit(format!("seqx\tt\t{}\tb1:24,T,b2:3,b3:1030,T,b4:1\t{}", pre, when));
+            emit(format!("seqx\tt\t{}\tb1:12,b2:12,n,b3:3,1>b4:3,b5:30\t{}", pre, when));
+            emit(format!("seqx\ta\t{}\tb1:24,T,b2:3,n,1>b3:5,T,b4:1,x9002:4,1>b5:2\t{}", pre, when));
+            emit(format!("seqx\tt\t{}\tb1:1030,n,1>b2:5,b3:2000,r,1>b4:7,x9003:9,b5:1,T,1>b6:1,b7:2\t{}", pre, when));
+            emit(format!("seqx\tt\t{}\tb1:3,e1!b2:4+4,x9004:2,p1!b3:4+4,b4:2,r,b5:1,mw!b6:1025+1,T,mf!b7:5\t{}", pre, when));
+        }
+    }
+    for _ in 0..(n / 5).max(20) {
+        let when = if rng.chance(1, 3) { "pre" } else { "post" };
+        // two in three with several handles on the path
+        let multi_den = if rng.chance(2, 3) { 1 } else { 3 };
+        emit(format!("seqx\t{}\t{}", crate::c04::random_seq_history(rng, thorough, multi_den), when));
     }
 }
 
